@@ -35,4 +35,5 @@ ASSUME SizesAgree
 ASSUME PathsReachTarget
 ASSUME ReaderWriterAgree
 ASSUME RelocConsistent
+ASSUME SaveYieldsBytes
 =============================================================================
